@@ -237,6 +237,7 @@ package api
 //@ ghost var lastSentParam *ReplicateMessageParam
 //@ trusted func (MessageManager).ReplicateMessage
 //@   params recv message
+//@   requires [the-result-callbacks-can-only-signal-the-call-that-made-them] message != nil && ownChannels(message.SuccessFunc) && ownChannels(message.FailFunc)
 //@   ensures sentMessages == old(sentMessages) + 1 && lastSentParam == old(message.Param)
 //@   modifies sentMessages, lastSentParam, ReplicateMessageParam.TargetMsgPosition
 
